@@ -102,18 +102,22 @@ Fixpoint sc_find_inc (sl : slice counter) (seqNr i : Z) (n : nat) : res (option 
            else sc_find_inc sl seqNr (i + 1) k
   end.
 
-(** for i := nrCounters-1; i >= 1; i-- { if seqNr > counters[i-1].seqNr { shift; counters[i-1] = new; return } } *)
+(** for i := nrCounters-1; i >= 1; i-- { if seqNr > counters[i-1].seqNr { insert between i-1 and i; return } }
+    (since ddde9b0: with room the counters i.. move up and _nrCounters grows, when full the oldest goes) *)
 Fixpoint sc_insert (s : sc) (seqNr i : Z) (n : nat) : res sc :=
   match n with
   | O => Ok s
   | S k =>
     do c <- sl_get "seqCounters.add:index" (sc_sl s) (i - 1);
     if fst c <? seqNr then
-      do sl1 <- (if sc_n s <? sc_w s
-                 then sl_copy "seqCounters.add:slice" (sc_sl s) (i + 1) (sc_n s) i (sc_n s - 1)
-                 else sl_copy "seqCounters.add:slice" (sc_sl s) 1 i 0 (i - 1));
-      do sl2 <- sl_set "seqCounters.add:index" sl1 (i - 1) (seqNr, 1);
-      Ok (with_sl s sl2)
+      if sc_n s <? sc_w s then
+        do sl1 <- sl_copy "seqCounters.add:slice" (sc_sl s) (i + 1) (u32 (sc_n s + 1)) i (sc_n s);
+        do sl2 <- sl_set "seqCounters.add:index" sl1 i (seqNr, 1);
+        Ok (mkSc sl2 (u32 (sc_n s + 1)) (sc_w s))
+      else
+        do sl1 <- sl_copy "seqCounters.add:slice" (sc_sl s) 0 (i - 1) 1 i;
+        do sl2 <- sl_set "seqCounters.add:index" sl1 (i - 1) (seqNr, 1);
+        Ok (with_sl s sl2)
     else sc_insert s seqNr (i - 1) k
   end.
 
@@ -523,7 +527,7 @@ Definition chan_received (c : chan) (name : Z) (it : item) : res chan_out :=
         else
           do i0 <- sl_get "channel.receivedSegData:index" (b_sl b) 0;
           do i1 <- sl_get "channel.receivedSegData:index" (b_sl b) 1;
-          if negb (i_seq i1 =? u32 (i_seq i0 + 1)) || negb (i_dur i1 =? i_dur i0) then
+          if negb (i_seq i1 =? u32 (i_seq i0 + 1)) || negb (i_dur i1 =? i_dur i0) || (i_dur i1 =? 0) then
             do g3 <- gen_dropSeqNr g2 (i_seq i0);
             Ok (mkOut (with_gen c2 g3) pub)
           else
